@@ -241,22 +241,47 @@ fn check_triple(base: &[u8], ours: &[u8], theirs: &[u8], cfgs: &[Cfg], merges: &
         if res == Resolution::Complete && has_marker_byte(&out) {
             return Err(format!("marker-in-clean: conflict-free result contains a marker {}", show(cfg, &out, res)));
         }
-        // (4) ours/theirs resolutions contain only lines of the base or the chosen side
+        // (4) ours/theirs resolutions contain only lines of the base or the chosen side — except lines that the other
+        // side contributed *without conflict* (identity (1) demands those: ours == base must give theirs under every
+        // resolution). "Without conflict" is read off the unminimised diff3 rendering of the same merge.
         let chosen = match cfg.conflict {
             Conflict::ResolveWithOurs => Some((ours, "ours")),
             Conflict::ResolveWithTheirs => Some((theirs, "theirs")),
             _ => None,
         };
         if let Some((side, name)) = chosen {
-            let allowed: HashSet<&[u8]> = lines_of(base).chain(lines_of(side)).collect();
+            let mut reference = Vec::new();
+            let mut ref_input: InternedInput<&[u8]> = InternedInput::default();
+            builtin_driver::text(
+                &mut reference,
+                &mut ref_input,
+                Labels::default(),
+                ours,
+                base,
+                theirs,
+                Options { diff_algorithm: cfg.algo, conflict: Conflict::Keep { style: ConflictStyle::Diff3, marker_size: 7 } },
+            );
+            merges.fetch_add(1, Ordering::Relaxed);
+            let mut allowed: HashSet<&[u8]> = lines_of(base).chain(lines_of(side)).collect();
+            let mut inside = false;
+            for l in lines_of(&reference) {
+                if l.starts_with(b"<<<<<<<") {
+                    inside = true;
+                } else if l.starts_with(b">>>>>>>") {
+                    inside = false;
+                } else if !inside {
+                    allowed.insert(l);
+                }
+            }
             if let Some(l) = lines_of(&out).find(|l| !allowed.contains(l)) {
                 return Err(format!(
-                    "{name}-foreign-line: line \"{}\" is neither in the base nor in {name} {}",
+                    "{name}-foreign-line: line \"{}\" is not in the base, not in {name} and not a conflict-free contribution (diff3 rendering \"{}\") {}",
                     escape(l),
+                    escape(&reference),
                     show(cfg, &out, res)
                 ));
             }
-            let mixed = out != side && out != base;
+            let mixed = out != side && out != base && out != if name == "ours" { theirs } else { ours };
             if name == "ours" {
                 sum.ours_mixed |= mixed;
             } else {
